@@ -488,19 +488,40 @@ def is_param(v, fn, idx):
 
 
 class Partition:
-    """a loop of fn whose elements are, in order, parts of parameter `buf` whose concatenation is `buf`:
+    """a place of fn whose elements are, in order, parts of parameter `buf` whose concatenation is `buf`:
        kind 'bytes'     every byte                       (for b in buf)
        kind 'segments'  buf.split_inclusive(|b| b == M)  every segment ends right after its first (and only) M, the last
-                        one may lack it"""
+                        one may lack it
+    The place is either a loop of fn (`for part in <parts>`: body = fn, the per-part statements are the loop body, the part
+    is the loop element) or the closure handed to an eager in-order consumer of the same iterator
+    (`<parts>.try_for_each(|part| ..)`, for_each, try_fold, fold: body = that closure, the per-part statements are the
+    closure body, the part is the closure's element parameter; the consumer calls it once per part, in order, and a
+    try_* consumer stops at the first failure exactly like `?` in the loop)."""
 
-    def __init__(self, fn, loop, kind, marker=None):
+    def __init__(self, fn, loop, kind, marker=None, body=None, call=None, elem=None):
         self.fn, self.loop, self.kind, self.marker = fn, loop, kind, marker
+        self.body = body if body is not None else fn      # the function the per-part statements live in
+        self.call, self.elem = call, elem                 # closure form: the consumer call in fn, the element parameter index
 
     def is_elem(self, v):
         v = strip(v)
         while v[0] == 'cast':
             v = strip(v[1])
+        if self.loop is None:
+            return v[0] == 'param' and v[1] == self.body.path and v[2] == self.elem
         return v[0] == 'call' and v[1] == IT + 'next' and len(v) == 4 and v[3] == (self.fn.path, self.loop.header)
+
+    def in_body(self, g, bb):
+        """block bb of function g runs once per part (conditions aside)"""
+        if g is not self.body:
+            return False
+        if self.loop is None:
+            return not g.in_loop(bb)
+        return bb in self.loop.body and g.in_loop(bb)
+
+    def is_next_cond(self, cd):
+        """cd is the loop's own `next()` is Some test"""
+        return self.loop is not None and _is_next_cond(self.fn, self.loop, cd)
 
     APPEND = {'bytes': ('std::vec::Vec::<T, A>::push',), 'segments': ('std::vec::Vec::<T, A>::extend_from_slice',)}
 
@@ -519,21 +540,43 @@ class Partition:
         return False
 
 
+# eager consumers that call their closure once per element, in order: name -> (closure argument, element parameter of the closure)
+EACH = {IT + 'try_for_each': (1, 1), IT + 'for_each': (1, 1), IT + 'try_fold': (2, 2), IT + 'fold': (2, 2)}
+
+
+def _parts_of(sl, fn, coll, idx, is_marker):
+    """(kind, marker) when iterating `coll` visits an in-order partition of parameter idx of fn"""
+    coll = peel_same(coll)
+    if is_param(coll, fn, idx):
+        return 'bytes', None
+    if coll[0] == 'call' and 'slice::<impl [T]>::split_inclusive' in coll[1] and len(coll[2]) == 2 and is_param(peel_same(coll[2][0]), fn, idx):
+        b = ('unknown', 'element')
+        pred = sl.apply_closure(coll[2][1], (b,))
+        if pred is not None and pred[0] == 'bin' and pred[1] == 'Eq' and b in (strip(pred[2]), strip(pred[3])):
+            m = pred[3] if strip(pred[2]) == b else pred[2]
+            if is_marker(m):
+                return 'segments', m
+    return None
+
+
 def partitions(sl, E, fn, idx, is_marker):
     out = []
     for L in E.loops(fn):
         if L.collection is None:
             continue
-        coll = peel_same(L.collection)
-        if is_param(coll, fn, idx):
-            out.append(Partition(fn, L, 'bytes'))
-        elif coll[0] == 'call' and 'slice::<impl [T]>::split_inclusive' in coll[1] and len(coll[2]) == 2 and is_param(peel_same(coll[2][0]), fn, idx):
-            b = ('unknown', 'element')
-            pred = sl.apply_closure(coll[2][1], (b,))
-            if pred is not None and pred[0] == 'bin' and pred[1] == 'Eq' and b in (strip(pred[2]), strip(pred[3])):
-                m = pred[3] if strip(pred[2]) == b else pred[2]
-                if is_marker(m):
-                    out.append(Partition(fn, L, 'segments', m))
+        km = _parts_of(sl, fn, L.collection, idx, is_marker)
+        if km is not None:
+            out.append(Partition(fn, L, km[0], km[1]))
+    # the same iteration spelled with an eager consumer and a closure
+    for c in fn.calls:
+        ci = EACH.get(c.decl) if not c.indirect else None
+        if ci is None or len(c.args) <= ci[0]:
+            continue
+        km = _parts_of(sl, fn, sl.operand(fn, c.args[0]), idx, is_marker)
+        clv = strip(sl.operand(fn, c.args[ci[0]]))
+        g = sl.prog.fns.get(clv[1]) if clv[0] == 'closure' else None
+        if km is not None and g is not None and g.parent == fn.path and not fn.in_loop(c.bb):
+            out.append(Partition(fn, None, km[0], km[1], body=g, call=c, elem=ci[1]))
     return out
 
 
